@@ -351,7 +351,7 @@ Lemma rvi_read_plain k1 t s2 h m : Forall byte s2 ->
     (k1 < 0 -> match Obj.obj_read_arr false None t s2 with Ok (_, sM) => st = SBDF_OK /\ s' = sM /\ k' = k1 | Err e => st = e end) /\
     ((st = SBDF_OK /\ Forall byte s' /\
         exists newb, h' = h ++ Some [VInt t; VInt 1; VInt 0; VCell (S L) 0; VInt 0] :: newb /\ (1 <= List.length newb)%nat /\
-          va_rel m' h' L (h ++ None :: nones (List.length newb)))
+          forall hp : heap, List.length hp = L -> va_rel m' (hp ++ Some [VInt t; VInt 1; VInt 0; VCell (S L) 0; VInt 0] :: newb) L (hp ++ None :: nones (List.length newb)))
      \/ (st < 0 /\ exists j, h' = h ++ None :: nones j)) /\
     (st = SBDF_OK -> match Obj.obj_read_arr false None t s2 with Ok (_, sM) => s' = sM | Err _ => False end).
 Proof.
@@ -363,14 +363,14 @@ Proof.
   destruct Out as [(-> & -> & Hb' & newb & -> & Hnb & D)|(Hneg & -> & j & ->)].
   - (* the values were read *)
     exists SBDF_OK. eexists (Build_rvl _ _ _ _ _ _ _ _ _). do 4 eexists. split; [|split; [exact Pf|split; [exact MT|split; [left; split; [reflexivity|split; [exact Hb'|exists newb; split; [reflexivity|split; [exact Hnb|]]]]|exact MT2]]]].
-    2: { set (pre2 := h ++ [Some [VInt t; VInt 1; VInt 0; VCell (S L) 0; VInt 0]]).
-         assert (Hp2 : List.length pre2 = S L) by (unfold pre2, L; rewrite app_length; cbn; lia).
-         assert (HX : h ++ Some [VInt t; VInt 1; VInt 0; VCell (S L) 0; VInt 0] :: newb = pre2 ++ newb) by (unfold pre2; rewrite <- app_assoc; reflexivity).
+    2: { intros hp Hhp. set (pre2 := hp ++ [Some [VInt t; VInt 1; VInt 0; VCell (S L) 0; VInt 0]]).
+         assert (Hp2 : List.length pre2 = S L) by (unfold pre2; rewrite app_length, Hhp; cbn; lia).
+         assert (HX : hp ++ Some [VInt t; VInt 1; VInt 0; VCell (S L) 0; VInt 0] :: newb = pre2 ++ newb) by (unfold pre2; rewrite <- app_assoc; reflexivity).
          assert (NL : forall z : heap, nth_error (pre2 ++ z) L = Some (Some [VInt t; VInt 1; VInt 0; VCell (S L) 0; VInt 0])).
-         { intros z. unfold pre2. rewrite <- app_assoc. cbn [app]. unfold L. rewrite nth_error_app2 by lia. rewrite Nat.sub_diag. reflexivity. }
+         { intros z. unfold pre2. rewrite <- app_assoc. cbn [app]. rewrite <- Hhp. rewrite nth_error_app2 by lia. rewrite Nat.sub_diag. reflexivity. }
          exists t, 1, 0, (VCell (S L) 0), (VInt 0), (pre2 ++ nones (List.length newb)), (pre2 ++ nones (List.length newb)).
          rewrite HX. split; [unfold va_block; apply NL|]. split; [right; exists (S L); split; [reflexivity|apply D; exact Hp2]|]. split; [left; split; reflexivity|].
-         split; [rewrite !NL; reflexivity|]. split; [rewrite !NL; reflexivity|]. unfold pre2. rewrite <- app_assoc. cbn [app]. unfold kill, L. rewrite set_nth_v_app. reflexivity. }
+         split; [rewrite !NL; reflexivity|]. split; [rewrite !NL; reflexivity|]. unfold pre2. rewrite <- app_assoc. cbn [app]. unfold kill. rewrite <- Hhp. rewrite set_nth_v_app. reflexivity. }
     cbn [fbody prog_sbdf_read_valuearray_int disp_of]. unrv. revert B. unfold ora, fr. cbn [app]. intros B.
     eapply bsE_seq; [|eapply bsE_return; evw; chk7; reflexivity].
     eapply bsE_if; [evw; chk7; reflexivity|reflexivity|].
@@ -419,7 +419,8 @@ Lemma rvi_read_rle k1 t s2 h m : Forall byte s2 ->
     ((st = SBDF_OK /\ Forall byte s' /\
         exists rows newb1 newb2, 0 <= rows /\ h' = h ++ Some [VInt t; VInt 2; VInt rows; VCell (S L) 0; VCell (S L + List.length newb1) 0] :: newb1 ++ newb2 /\
           (1 <= List.length newb1)%nat /\ (1 <= List.length newb2)%nat /\
-          va_rel m' h' L (h ++ None :: nones (List.length newb1 + List.length newb2)))
+          forall hp : heap, List.length hp = L ->
+            va_rel m' (hp ++ Some [VInt t; VInt 2; VInt rows; VCell (S L) 0; VCell (S L + List.length newb1) 0] :: newb1 ++ newb2) L (hp ++ None :: nones (List.length newb1 + List.length newb2)))
      \/ (st < 0 /\ exists j, h' = h ++ None :: nones j)) /\
     (st = SBDF_OK -> match (v <-r read_int32 false ;; if v <? 0 then rfail SBDF_ERROR_INVALID_SIZE else
                         _ <-r Obj.obj_read_arr false None SBDF_BYTETYPEID ;; _ <-r Obj.obj_read_arr false None t ;; rret tt) s2 with
@@ -548,11 +549,12 @@ Proof.
       destruct (Obj.obj_read_arr false None SBDF_BYTETYPEID s3) as [[ob1 sM1]|eM1]; [|exact MT1]. destruct MT1 as (_ & <- & ->). specialize (MT2 Hk).
       destruct (Obj.obj_read_arr false None t s4) as [[ob2 sM2]|eM2]; [|exact MT2]. destruct MT2 as (_ & <- & ->). repeat split; reflexivity.
     + split; [reflexivity|]. split; [exact Hs5|]. exists rows, newb1, newb2. split; [lia|]. split; [reflexivity|]. split; [exact Hn1|]. split; [exact Hn2|].
-      set (pre2 := h ++ [Some [VInt t; VInt 2; VInt rows; VCell (S L) 0; VCell (S L + n1) 0]]).
-      assert (Hp2 : List.length pre2 = S L) by (unfold pre2, L; rewrite app_length; cbn; lia).
-      assert (HX : h ++ Some [VInt t; VInt 2; VInt rows; VCell (S L) 0; VCell (S L + n1) 0] :: newb1 ++ newb2 = (pre2 ++ newb1) ++ newb2) by (unfold pre2; rewrite <- !app_assoc; reflexivity).
+      intros hp Hhp.
+      set (pre2 := hp ++ [Some [VInt t; VInt 2; VInt rows; VCell (S L) 0; VCell (S L + n1) 0]]).
+      assert (Hp2 : List.length pre2 = S L) by (unfold pre2; rewrite app_length, Hhp; cbn; lia).
+      assert (HX : hp ++ Some [VInt t; VInt 2; VInt rows; VCell (S L) 0; VCell (S L + n1) 0] :: newb1 ++ newb2 = (pre2 ++ newb1) ++ newb2) by (unfold pre2; rewrite <- !app_assoc; reflexivity).
       assert (NL : forall z : heap, nth_error (pre2 ++ z) L = Some (Some [VInt t; VInt 2; VInt rows; VCell (S L) 0; VCell (S L + n1) 0])).
-      { intros z. unfold pre2. rewrite <- app_assoc. cbn [app]. unfold L. rewrite nth_error_app2 by lia. rewrite Nat.sub_diag. reflexivity. }
+      { intros z. unfold pre2. rewrite <- app_assoc. cbn [app]. rewrite <- Hhp. rewrite nth_error_app2 by lia. rewrite Nat.sub_diag. reflexivity. }
       set (pre3 := pre2 ++ nones n1).
       assert (Hp3 : List.length pre3 = (S L + n1)%nat) by (unfold pre3, nones; rewrite app_length, repeat_length; lia).
       exists t, 2, rows, (VCell (S L) 0), (VCell (S L + n1) 0), (pre3 ++ newb2), (pre3 ++ nones (List.length newb2)).
@@ -560,7 +562,7 @@ Proof.
       split; [right; exists (S L); split; [reflexivity|unfold pre3; eapply destroys_grow; [apply D1; exact Hp2|destruct Pf2 as (x2 & ->); rewrite zlen_app; pose proof (zlen_nonneg x2); lia]]|].
       split; [right; exists (S L + n1)%nat; split; [reflexivity|apply D2; exact Hp3]|].
       split; [unfold pre3; rewrite <- !app_assoc; rewrite !NL; reflexivity|]. split; [unfold pre3; rewrite <- !app_assoc; rewrite !NL; reflexivity|].
-      unfold pre3, pre2. rewrite <- !app_assoc. cbn [app]. unfold kill, L. rewrite set_nth_v_app. rewrite nones_app. reflexivity.
+      unfold pre3, pre2. rewrite <- !app_assoc. cbn [app]. unfold kill. rewrite <- Hhp. rewrite set_nth_v_app. rewrite nones_app. reflexivity.
     + intros _. unfold rd_bind, rfail, rret. rewrite ER, Eneg. specialize (P1 eq_refl).
       destruct (Obj.obj_read_arr false None SBDF_BYTETYPEID s3) as [[ob1 sM1]|eM1]; [|exact P1]. rewrite <- P1. specialize (P2 eq_refl).
       destruct (Obj.obj_read_arr false None t s4) as [[ob2 sM2]|eM2]; exact P2.
@@ -627,7 +629,8 @@ Lemma rvi_read_bs k sx h m sh : Forall byte sx -> (forall t s2, sx <> 3 :: t :: 
   exists st l' sh' k' s' h' m',
     bsE prog_env (fbody prog_sbdf_read_valuearray_int) (rvr fv hv rvl0 sh bv k sx h m o) (OReturn (VInt st) (rvr fv hv l' sh' bv k' s' h' m' o)) /\ prefix_of m m' /\
     (k < 0 -> match Va.va_read false None sx with Ok (_, sM) => st = SBDF_OK /\ s' = sM | Err e => st = e end) /\
-    ((st = SBDF_OK /\ sh' = VCell L 0 /\ exists blk newb, h' = h ++ Some blk :: newb /\ va_rel m' h' L (h ++ None :: nones (List.length newb))) \/ (st < 0 /\ exists j, h' = h ++ nones j)) /\
+    ((st = SBDF_OK /\ sh' = VCell L 0 /\ Forall byte s' /\ exists blk newb, h' = h ++ Some blk :: newb /\
+        forall hp : heap, List.length hp = L -> va_rel m' (hp ++ Some blk :: newb) L (hp ++ None :: nones (List.length newb))) \/ (st < 0 /\ exists j, h' = h ++ nones j)) /\
     (st = SBDF_OK -> match Va.va_read false None sx with Ok (_, sM) => s' = sM | Err _ => False end).
 Proof.
   intros Hs H3 L. unfold Va.va_read, rd_bind, vt_read.
@@ -672,7 +675,7 @@ Proof.
     exists st, l', (VCell L 0), k', s', h', m'. split; [apply rvi_read_pre; [exact Hs|exact Hk|exact B]|]. split; [exact Pf|]. split; [|split].
     - intros Hk0. specialize (MT ltac:(rewrite (Dk Hk0); exact Hk0)). unfold rd_bind, rret.
       destruct (Obj.obj_read_arr false None t s2) as [[ob sM]|eM]; [destruct MT as (-> & -> & _); split; reflexivity|exact MT].
-    - destruct Out as [(-> & _ & newb & -> & _ & VR)|(Hn & j & ->)]; [left; split; [reflexivity|split; [reflexivity|eexists; eexists; split; [reflexivity|exact VR]]]|right; split; [exact Hn|exists (S j); reflexivity]].
+    - destruct Out as [(-> & Hb' & newb & -> & _ & VR)|(Hn & j & ->)]; [left; split; [reflexivity|split; [reflexivity|split; [exact Hb'|eexists; eexists; split; [reflexivity|exact VR]]]]|right; split; [exact Hn|exists (S j); reflexivity]].
     - intros X. specialize (PP X). unfold rd_bind, rret. destruct (Obj.obj_read_arr false None t s2) as [[ob sM]|eM]; exact PP. }
   destruct (e =? 2) eqn:E2.
   { assert (e = 2) by lia. subst e.
@@ -682,8 +685,8 @@ Proof.
       destruct (read_int32 false s2) as [[rows s3]|eR]; [|exact MT]. destruct (rows <? 0); [exact MT|].
       destruct (Obj.obj_read_arr false None SBDF_BYTETYPEID s3) as [[ob1 sM1]|eM1]; [|exact MT].
       destruct (Obj.obj_read_arr false None t sM1) as [[ob2 sM2]|eM2]; [destruct MT as (-> & -> & _); split; reflexivity|exact MT].
-    - destruct Out as [(-> & _ & rows & newb1 & newb2 & _ & -> & _ & _ & VR)|(Hn & j & ->)]; [|right; split; [exact Hn|exists (S j); reflexivity]].
-      left. split; [reflexivity|]. split; [reflexivity|]. eexists; eexists. split; [reflexivity|]. rewrite app_length. exact VR.
+    - destruct Out as [(-> & Hb' & rows & newb1 & newb2 & _ & -> & _ & _ & VR)|(Hn & j & ->)]; [|right; split; [exact Hn|exists (S j); reflexivity]].
+      left. split; [reflexivity|]. split; [reflexivity|]. split; [exact Hb'|]. eexists; eexists. split; [reflexivity|]. rewrite app_length. exact VR.
     - intros X. specialize (PP X). clear MT. unfold rd_bind, rret, rfail in *.
       destruct (read_int32 false s2) as [[rows s3]|eR]; [|exact PP]. destruct (rows <? 0); [exact PP|].
       destruct (Obj.obj_read_arr false None SBDF_BYTETYPEID s3) as [[ob1 sM1]|eM1]; [|exact PP].
@@ -715,7 +718,7 @@ Proof.
   intros Hs H3.
   destruct (rvi_read_bs (VInt 0) [] rf rp fo po k sx h m VNull Hs H3) as (st & l' & sh' & k' & s' & h' & m' & B & Pf & MT & Out & PP).
   destruct l'. revert B. unrv. intros B.
-  destruct Out as [(-> & -> & blk & newb & -> & VR)|(Hneg & j & ->)].
+  destruct Out as [(-> & -> & _ & blk & newb & -> & VR)|(Hneg & j & ->)].
   - assert (BV : bsE prog_env (fbody prog_sbdf_va_read) (vrd (VPtr rf fo) (VPtr rp po) VUndef VUndef (VInt 0) k sx h m [])
                    (OReturn (VInt SBDF_OK) (vrd (VPtr rf fo) (VPtr rp po) (VInt SBDF_OK) (VCell (List.length h) 0) (VInt 0) k' s' (h ++ Some blk :: newb) m' []))).
     { cbn [fbody prog_sbdf_va_read]. unfold vrd, fr. cbn [app].
@@ -726,7 +729,7 @@ Proof.
       eapply bsE_seq; [eapply bsE_if; [evw; reflexivity|reflexivity|apply bsE_skip]|]. eapply bsE_return. evw. reflexivity. }
     destruct (bsE_sound _ _ _ _ BV) as (f0 & F). exists f0. intros f Hf. exists SBDF_OK. eexists. split; [apply F; exact Hf|]. split; [exact Pf|]. split.
     + intros Hk. specialize (MT Hk). destruct (Va.va_read false None sx) as [[va sM]|eM]; [destruct MT as (_ & ->); split; reflexivity|exact MT].
-    + split; [left; split; [reflexivity|]; split; [reflexivity|]; exists blk, newb; split; [reflexivity|exact VR]|].
+    + split; [left; split; [reflexivity|]; split; [reflexivity|]; exists blk, newb; split; [reflexivity|exact (VR h eq_refl)]|].
       intros X. specialize (PP X). destruct (Va.va_read false None sx) as [[va sM]|eM]; [rewrite PP; reflexivity|exact PP].
   - assert (BV : bsE prog_env (fbody prog_sbdf_va_read) (vrd (VPtr rf fo) (VPtr rp po) VUndef VUndef (VInt 0) k sx h m [])
                    (OReturn (VInt st) (vrd (VPtr rf fo) (VPtr rp po) (VInt st) VNull (VInt 0) k' s' (h ++ nones j) m' []))).
